@@ -25,6 +25,7 @@ GPG_KEYS: dict[str, str] = {}       # fingerprint -> raw public key hex (real Gn
 GNUPGHOME: str | None = None
 FAIL_NEXT: list = []                 # exceptions to raise from the next create_signature calls (fault injection)
 CALLS: list = []
+CANNED = None                        # (other_headers, signature, q): what the signer returns, fixed by the caller; non-str = the call raises ValueError
 
 
 def fingerprint_of(k: gen.Key) -> str:
@@ -48,6 +49,11 @@ def create_signature(content, keyid=None, homedir=None):
     CALLS.append(("create_signature", keyid))
     if FAIL_NEXT:
         raise FAIL_NEXT.pop(0)
+    if CANNED is not None:
+        oh, sg, _q = CANNED
+        if not (isinstance(oh, str) and isinstance(sg, str)):
+            raise ValueError("canned signer: no signature")
+        return {"keyid": keyid, "other_headers": oh, "signature": sg}
     if keyid in REGISTRY:
         k = REGISTRY[keyid]
         hdr = hashed_headers(keyid)
@@ -60,7 +66,11 @@ def create_signature(content, keyid=None, homedir=None):
 
 def export_pubkey(keyid, homedir=None):
     CALLS.append(("export_pubkey", keyid))
-    if keyid in REGISTRY:
+    if CANNED is not None:
+        if not isinstance(CANNED[2], str):
+            raise ValueError("canned signer: no such key")
+        q = CANNED[2]
+    elif keyid in REGISTRY:
         q = REGISTRY[keyid].hex
     elif keyid in GPG_KEYS:
         q = GPG_KEYS[keyid]
